@@ -132,7 +132,13 @@ func genC05(t *core.Tape, tier string) *Scenario {
 			payloads = append(payloads, ref.EncodeBytesValue(codec, m))
 		}
 		if (p.Kind == KUnary || p.Kind == KClient) && refErr != nil {
-			payloads = nil
+			if (c.Proto != PConnect || p.Kind == KClient) && len(payloads) == 1 && t.Bool(1, 3, "message.then.error") {
+				// legal on the wire: the one response message, then a non-OK
+				// status - the call's outcome is that status
+				sc.Notes["unary_message_then_error"]++
+			} else {
+				payloads = nil
+			}
 		}
 		p.Canned = &simhttp.Canned{ReadRequest: true, OnRequest: func(reqHdr http.Header) *simhttp.Canned {
 			oo := o
